@@ -275,7 +275,7 @@ def verify_function(contract: Contract, specs=None, variant=None) -> FunctionRep
                 for cl in contract.ensures_:
                     if getattr(cl, "only_exit", None) and not base.startswith(cl.only_exit):
                         continue
-                    g = ex.eval_clause(cl, _post_bound(cl, params_bound, extra), s2, ex.entry_pre, extra)
+                    g = ex.eval_clause(cl, _post_bound(cl, params_bound, extra, s2), s2, ex.entry_pre, extra)
                     rep.obligations.append(Obligation(f"{site}::post:{cl.name}@{exit_id}", "post", list(s2.pc), g,
                                                       {"exit": exit_id, "clause": cl.name, "line": ln, "props": cl.props}, aux=cl.aux))
             else:
@@ -294,12 +294,15 @@ def verify_function(contract: Contract, specs=None, variant=None) -> FunctionRep
                 for gname_ in ex.ghost_names():
                     extra[gname_] = s2.ghost.get(gname_, Val("l", sym.EMPTY_LIST))
                 for cl in contract.raises_:
-                    g = ex.eval_clause(cl, _post_bound(cl, params_bound, extra), s2, ex.entry_pre, extra)
+                    g = ex.eval_clause(cl, _post_bound(cl, params_bound, extra, s2), s2, ex.entry_pre, extra)
                     rep.obligations.append(Obligation(f"{site}::raises:{cl.name}@{exit_id}", "raises", list(s2.pc), g, dict(info, clause=cl.name, props=cl.props), aux=cl.aux))
         all_pcs = [z3.And(*o.state.pc) if o.state.pc else z3.BoolVal(True) for o in outs]
         if all_pcs:
             rep.obligations.append(Obligation(f"{site}::cover:some-exit", "cover", [z3.Or(*all_pcs)], z3.BoolVal(True), {}, expect="sat"))
         rep.obligations.extend(ex.obligations)
+        if ex.axioms:
+            for ob in rep.obligations:
+                ob.pc = list(ex.axioms) + list(ob.pc)
     except OutOfSubset as e:
         rep.error = f"out of subset: {e}"
     except RecursionError:
@@ -313,8 +316,18 @@ def verify_function(contract: Contract, specs=None, variant=None) -> FunctionRep
     return rep
 
 
-def _post_bound(cl, params_bound, extra):
-    return params_bound
+def _post_bound(cl, params_bound, extra, s2=None):
+    """clause parameters: the function's parameters denote the objects passed in (entry slots, post heap); any other name is a local
+    of the function evaluated at the exit (used by statement / region contracts)"""
+    if s2 is None:
+        return params_bound
+    b = {k: v for k, v in s2.vars.items() if not k.startswith("__")}
+    b.update(params_bound)
+    if getattr(cl, "kind", "") in ("ensures", "raises"):
+        for p_ in cl.params:
+            if p_ in s2.vars and p_ in getattr(cl, "_locals_now", ()):
+                b[p_] = s2.vars[p_]
+    return b
 
 
 def _collect_inputs(st: State):
